@@ -459,6 +459,24 @@ fn documented_legality(t: &str, pos: &str) -> Option<Vec<u16>>
 		}
 		return Some(vec![350, 351, 352, 353, 354, 356, 358, 359]);
 	}
+	// docs/errors.md E350: an opaque structure has no compile-time size: `[10]Foo` and `[]Foo` are
+	// invalid in every position, `&Foo` and `[]&Foo` are valid
+	if matches!(t, "[3]O" | "[]O")
+	{
+		if pos == "constant"
+		{
+			return None;
+		}
+		return Some(vec![350, 351, 352, 353, 354, 356, 358, 359]);
+	}
+	if t == "O" && matches!(pos, "variable" | "struct member" | "size-of operand")
+	{
+		return Some(vec![350, 352, 356, 359]);
+	}
+	if t == "&O" && matches!(pos, "variable" | "parameter" | "struct member")
+	{
+		return Some(vec![]);
+	}
 	match pos
 	{
 		"variable" =>
